@@ -57,6 +57,29 @@ def parse(line):
     return dict(points=pts, results=res, contested=cont, naccess=int(m.group(4)), locale=m.group(7))
 
 
+_SYMS = {}
+
+
+def symbol_of(exe, addr, name):
+    """static symbols are not in the dynamic symbol table: resolve '?' through nm"""
+    if name not in ("?", "new", ""):
+        return name
+    if exe not in _SYMS:
+        import bisect
+        tab = []
+        for l in subprocess.run(["nm", "-n", "--defined-only", exe], stdout=subprocess.PIPE, text=True).stdout.splitlines():
+            f = l.split()
+            if len(f) == 3 and f[1] in "bBdDrR":
+                tab.append((int(f[0], 16), f[2]))
+        _SYMS[exe] = tab
+    import bisect
+    tab = _SYMS[exe]
+    i = bisect.bisect_right(tab, (addr, "\xff")) - 1
+    if 0 <= i < len(tab) and addr - tab[i][0] < 1 << 20:
+        return "%s+%d" % (tab[i][1], addr - tab[i][0])
+    return "heap-or-unknown"
+
+
 def explore(h, pts, progs, contested, bound, serial, on_bad, budget):
     """stateless preemption-bounded DFS (CHESS): returns (schedules, transitions, distinct outcomes, new contested granules)"""
     nsched = ntrans = 0
@@ -180,6 +203,7 @@ def run(ctx, B):
                     continue
                 for g, nm_, who in r["contested"]:
                     contested.add(g)
+                    nm_ = symbol_of(exe, g << 2, nm_)
                     with lock:
                         ctx.violation("race|%s|%s" % (nm_, "+".join(sorted(set(OPNAMES[o].split("(")[0] for p in progs for o in p)))),
                                       "%s: location %s (granule 0x%x) is accessed by threads %s with at least one write and no synchronisation: data race" % (name, nm_, g << 2, who),
@@ -196,6 +220,7 @@ def run(ctx, B):
                         break
                     for g, nm_ in newc:
                         contested.add(g)
+                        nm_ = symbol_of(exe, g << 2, nm_)
                         with lock:
                             ctx.violation("race|%s|%s" % (nm_, "+".join(sorted(set(OPNAMES[o].split("(")[0] for p in progs for o in p)))),
                                           "%s: location %s (granule 0x%x) becomes shared on a non-serial schedule: data race" % (name, nm_, g << 2), dict(progs=progs, points=pts, prefix=[], locale=lc))
